@@ -384,3 +384,9 @@ CASES += [
                     }
                 });''')]),
 ]
+
+CASES += [
+    dict(name='m-help-without-own-reservation', kind='mutant', props=['C13', 'C12', 'C11'], expect=['C13', 'C12'],
+         edits=[(LI, '''        let _reservation = node.reserve_writer();
+        node.helping.help(&who.helping, storage_addr, replacement)''', '''        node.helping.help(&who.helping, storage_addr, replacement)''')]),
+]
